@@ -63,15 +63,14 @@ def flags_term(f):
 
 
 def last_step_error(obs):
-    """the oracle facts about the external world that the model cannot compute: did template/format fail, did the
-    write fail.  Both show up as the single error of the 'Generate code' step."""
-    out = obs.get("stdout", "")
+    """the oracle facts about the external world that the model cannot compute: did template/format/goimports fail,
+    did os.WriteFile fail.  Both are the single, unprefixed error of the code generation step (every earlier step
+    prefixes its errors with `runner.`, `compiler.` or `output.`)."""
     errs = obs.get("errors") or []
-    if obs.get("exit") == 1 and "\nGenerate code" in "\n" + out and "Generate code END" in out:
-        # failing step is the generator; distinguish by whether "Printing to the file" was printed
-        if "Printing to the file" in out:
-            return None, "\n".join(errs)
-        return "\n".join(errs), None
+    if obs.get("exit") == 1 and len(errs) == 1 and not errs[0].startswith(("runner.", "compiler.", "output.")):
+        if errs[0].startswith(("open ", "write ", "close ")):
+            return None, errs[0]
+        return errs[0], None
     return None, None
 
 
